@@ -148,21 +148,21 @@ def configs(fams, thorough, seed):
     c = base_consts(st)
     seqs = perms_upto([1, 2, 3, 4], 4) | {(0, 1), (1, 0), (0, 1, 2), (1, 0, 3), (1, 2, 0), (0, 0), (0, 0, 1), (0,), (1, 1), (1, 3, 1), (3, 3, 4)}
     c.update(Kinds={6, 9}, ValuesFlags={0, 1}, CommitFlags={0, 2, 4}, ObjSeqs=seqs, MaxRestricts=2,
-             Ops={"restrict", "dup", "xml", "q", "rmtype", "rmdepth"}, RmTypes={"PU", "Core"}, BadDepths={99},
+             Ops={"restrict", "dup", "xml", "shm", "q", "rmtype", "rmdepth"}, RmTypes={"PU", "Core"}, BadDepths={99},
              Queries={("type", "PU", 0, 0, 1), ("type", "NUMANode", 0, 0, 2), ("type", "Core", 8, 0, 0), ("type", "Package", 0, 0, 1),
                       ("depth", "t:PU", 0, 0, -1), ("depth", "t:NUMANode", 4, 0, 1), ("depth", "99", 0, 0, 1), ("depth", "-99", 0, 0, 0),
                       ("kind", "", 0, 1, 1), ("name", "a", 0, 1, 1)})
-    out.append(("objs", st, c, "bfs", 2 if thorough else 72, 0, 0))
+    out.append(("objs", st, c, "bfs", 10 if thorough else 72, 0, 0))
     # S: several structures: filters, array sizes, removals
     c = base_consts(st)
-    c.update(Names={"-", "a", "b"}, Kinds={6, 9, 33, 4} if thorough else {6, 9, 33}, ObjSeqs={(1, 2), (3, 4), (2, 1, 3)} | ({(4, 1)} if thorough else set()),
+    c.update(Names={"-", "a"} if thorough else {"-", "a", "b"}, Kinds={6, 9, 33}, ObjSeqs={(1, 2), (3, 4), (2, 1, 3)},
              MaxDists=3 if thorough else 2, MaxRestricts=1,
-             Ops={"q", "remove", "rmtype", "rmdepth", "rr", "rr2", "restrict", "dup", "xml"}, RmTypes={"PU", "NUMANode", "Package"}, BadDepths={99, -1},
-             Queries=kind_queries(range(0, 48) if thorough else [0, 1, 2, 3, 4, 8, 12, 32, 36, 44, 5, 10, 35, 16, 22, 47], [-1, 0, 1, 2])
+             Ops={"q", "remove", "rmtype", "rmdepth", "rr", "rr2", "restrict", "dup", "xml", "shm"}, RmTypes={"PU", "NUMANode", "Package"}, BadDepths={99, -1},
+             Queries=kind_queries(range(0, 48) if thorough else [0, 1, 2, 3, 4, 8, 12, 32, 36, 44, 5, 10, 35, 16, 22, 47], [-1, 1] if thorough else [-1, 0, 1, 2])
              | {("name", n, 0, 0, k) for n in ("a", "b", "c") for k in (-1, 0, 1)}
              | {("type", t, k, 0, n) for t in ("PU", "NUMANode", "Core") for k in (0, 4, 9) for n in (-1, 1)}
              | {("depth", d, 0, 0, 1) for d in ("t:PU", "t:Core", "7")})
-    out.append(("store", st, c, "bfs", 16 if thorough else 700, 0, 0))
+    out.append(("store", st, c, "bfs", 600 if thorough else 700, 0, 0))
     # X: transforms on copies: all positions of 0..2 switch ports among up to 4 objects, NULLed objects, bad arguments
     c = base_consts(sw)
     xseq = set()
@@ -175,7 +175,7 @@ def configs(fams, thorough, seed):
     xseq |= {(5, 6), (5, 1), (1, 5), (1, 5, 6), (5, 1, 6), (6, 5, 2), (1, 2, 3), (2, 1)}
     xfs = {(t, m, 0, 0) for t in (0, 1, 2, 3) for m in (0, 1, 2, 4, 6, 9, 14, 15)} | {(t, 0, f, a) for t in (0, 2) for f, a in ((1, 0), (0, 1))} | {(4, 0, 0, 0), (7, 1, 0, 0)}
     c.update(Kinds={9, 10, 6}, ObjSeqs=xseq, ValPats={1, 3, 4, 6}, Ops={"xf"}, Xfs=xfs, Restricts=set())
-    out.append(("xf", sw, c, "bfs", 4 if thorough else 40, 0, 0))
+    out.append(("xf", sw, c, "bfs", 6 if thorough else 40, 0, 0))
     # G: grouping at commit: homogeneous sets of 3-4 objects, groupable and not, all flag words, then the usual followers
     c = base_consts(gr)
     c.update(Kinds={6, 33, 9}, CommitFlags={0, 1, 2, 3}, ValPats={1, 2, 5},
@@ -188,11 +188,11 @@ def configs(fams, thorough, seed):
         c.update(Names={"-", "a", "b"}, Kinds={6, 9, 33, 5, 10, 34, 4, 2, 0, 22, 70, 3}, CreateFlags={0, 0, 1}, ValuesFlags={0}, CommitFlags={0, 0, 2, 4},
                  ObjSeqs=set(random.Random(seed * 77 + i).sample(sorted(perms_upto([1, 2, 3, 4, 5, 6, 7], 4) | {(0, 1, 2), (1, 0), (7, 7, 1)}), 60)),
                  ValPats={0, 1}, MaxDists=4, MaxRestricts=3,
-                 Ops={"q", "remove", "rmtype", "rmdepth", "rr", "rr2", "restrict", "dup", "xml", "xf"}, RmTypes={"PU", "NUMANode", "Core", "Package"}, BadDepths={99},
+                 Ops={"q", "remove", "rmtype", "rmdepth", "rr", "rr2", "restrict", "dup", "xml", "shm", "xf"}, RmTypes={"PU", "NUMANode", "Core", "Package"}, BadDepths={99},
                  Queries=kind_queries([0, 1, 2, 4, 8, 32, 6, 9, 45, 3], [-1, 1]) | {("name", "a", 0, 0, -1), ("name", "b", 0, 0, 1)}
                  | {("type", t, 0, 0, -1) for t in ("PU", "NUMANode", "Core", "Package")} | {("depth", "t:Core", 0, 0, 2)},
                  Xfs={(0, 1, 0, 0), (0, 6, 0, 0), (1, 0, 0, 0), (3, 0, 0, 0), (2, 0, 0, 0)}, SimLen=14)
-        out.append(("sim%d" % i, six, c, "sim", 1, 400 if thorough else 40, 15))
+        out.append(("sim%d" % i, six, c, "sim", 1, 150 if thorough else 40, 15))
     return out
 
 
@@ -233,6 +233,8 @@ def beh_text(hist, fam):
             lines.append("dup")
         elif op == "xml":
             lines.append("xml 0")
+        elif op == "shm":
+            lines.append("shm")
         else:
             raise vlib.Infra("unknown op in TLC history: %r" % (t,))
     return "\n".join(lines) + "\n"
@@ -314,10 +316,10 @@ def bundled_behaviours(ctx, exe, rng, thorough):
             restr.append("restrict %d %s" % (rng.choice([0, 1, 1, 5]), fmt_list(cs)))
             if ns and ns != root_n:
                 restr.append("restrict %d %s" % (rng.choice([8, 24]), fmt_list(ns)))
-        behs.append("\n".join([reset] + queries + xfs + ["dup", "q kind 0 0 -1", "xml 0", "q kind 0 0 -1"]) + "\n")
+        behs.append("\n".join([reset] + queries + xfs + ["shm", "dup", "q kind 0 0 -1", "xml 0", "q kind 0 0 -1", "shm"]) + "\n")
         for r in restr:
             tail = rng.sample(queries, min(4, len(queries))) + rng.sample(xfs, min(3, len(xfs)))
-            seq = [reset, r] + tail + rng.sample(["dup", "xml 0", rng.choice(restr)], 3) + ["q kind 0 0 -1"]
+            seq = [reset, r] + tail + rng.sample(["dup", "xml 0", "shm", rng.choice(restr)], 4) + ["q kind 0 0 -1"]
             behs.append("\n".join(seq) + "\n")
         # removals on a loaded file
         behs.append("\n".join([reset, "rmtype %s" % types[0], "q kind 0 0 -1", "rr2 0", "xml 0", "remove", "dup"]) + "\n")
@@ -383,7 +385,17 @@ def run(ctx, replay=None):
     t1 = time.time()
     rejs = ctx.validate("TraceDistances", tf)
     vlib.log("C13: recording %.0fs, validation %.0fs, trace %.1f MB" % (t1 - t0, time.time() - t1, os.path.getsize(tf) / 1e6))
-    ctx.handle_rejections(rejs, behs, replay_fn)
+    # every rejection is confirmed by a fresh re-run; a dozen distinct ones are enough to report
+    seen, todo = set(), []
+    for r in rejs:
+        key = re.sub(r"\d+", "#", r["line"][:60])
+        if key in seen and len(todo) >= 4:
+            continue
+        seen.add(key)
+        todo.append(r)
+    if len(todo) < len(rejs):
+        ctx.notes.append("%d rejected behaviours, %d confirmed and reported" % (len(rejs), len(todo[:12])))
+    ctx.handle_rejections(todo[:12], behs, replay_fn)
     return ctx.finish(
         rule="behaviours = one per (striped) edge of the state graph of the bounded distances store in five configurations "
              "(all kind words; all object arrays of 0..4 of 4 candidates incl. NULL/duplicates followed by restrict/dup/XML; "
